@@ -564,13 +564,25 @@ fn run_on<F: Fe>(mut fe: F, any: bool, w: &WorldSpec, ops: &[Op]) -> Outcome {
     let mut obs = vec![];
     let mut violation = None;
     for (i, op) in ops.iter().enumerate() {
-        let real = apply(&mut fe, any, op);
+        // a panic out of the cache (e.g. "wrong handle type") is an observation, not a crash of the checker
+        let real = match std::panic::catch_unwind(std::panic::AssertUnwindSafe(|| apply(&mut fe, any, op))) {
+            Ok(r) => r,
+            Err(e) => format!("PANIC({})", e.downcast_ref::<String>().cloned().or_else(|| e.downcast_ref::<&str>().map(|s| s.to_string())).unwrap_or_default()),
+        };
         let exp = model.apply(w, op);
         obs.push(real.clone());
         if real != exp && violation.is_none() {
             violation = Some((format!("return:{}", op_class(op)), format!("step {i} `{op:?}` returned {real}, the reference map says {exp}")));
         }
-        let mx = matrix(&fe, any);
+        let mx = match std::panic::catch_unwind(std::panic::AssertUnwindSafe(|| matrix(&fe, any))) {
+            Ok(m) => m,
+            Err(e) => {
+                if violation.is_none() {
+                    violation = Some((format!("panic-on-lookup:{}", op_class(op)), format!("after step {i} `{op:?}` a look-up panicked: {}", e.downcast_ref::<String>().cloned().or_else(|| e.downcast_ref::<&str>().map(|s| s.to_string())).unwrap_or_default())));
+                }
+                break;
+            }
+        };
         if mx != model && violation.is_none() {
             violation = Some((format!("contents:{}", op_class(op)), format!("after step {i} `{op:?}` the cache holds {mx:?}, the reference map {model:?}")));
         }
